@@ -148,10 +148,18 @@ def gen_case(seed):
             tag = r.pick(['u', 'v', 'w'])
             hist.append({'op': 'merge_parts', 'into': a, 'unit': tag, 'path': r.pick(PATHS),
                          'state': {'acc': {r.pick(avars): r.rint(1, 50)}} if r.chance(50) else {}})
-        else:
+        elif m < 95:
             a = r.pick(names)
             hist.append({'op': 'merge_state', 'into': a, 'path': r.pick(PATHS),
                          'state': {'acc': {r.pick(avars): r.rint(1, 50)}}})
+        else:
+            # a schema override on one composite, naming one process of one generated unit
+            gens = [h for h in hist if h['op'] == 'generate']
+            if gens:
+                g = r.pick(gens)
+                pn = units[g['unit']]['procs'][0]['name']
+                hist.append({'op': 'override', 'into': g['out'], 'target': list(g['path']) + [pn],
+                             'var': 'a0', 'default': r.rint(700, 800)})
     # entry-point differential
     run_unit = r.pick(['u', 'v', 'w'])
     ops = []
@@ -173,7 +181,10 @@ def mark(x):
     if isinstance(x, dict):
         return {k: mark(v) for k, v in x.items()}
     if isinstance(x, Process):
-        return '<P:%s:%d>' % (x.name, REC.extra.setdefault('pid', {}).setdefault(id(x), len(REC.extra['pid'])))
+        import json as _json
+        pid = REC.extra.setdefault('pid', {}).setdefault(id(x), len(REC.extra['pid']))
+        # the overrides in force for this very object are part of what a composite "is"
+        return '<P:%s:%d|%s>' % (x.name, pid, _json.dumps(x.schema_override, sort_keys=True, default=str))
     if isinstance(x, (list, tuple)):
         return [mark(v) for v in x]
     return x
@@ -210,16 +221,25 @@ def run_history(case):
     real = {}
     snaps = []
     exc = None
+    composers = {}
     try:
         for i, h in enumerate(case['history']):
             try:
                 if h['op'] == 'generate':
-                    u = case['units'][h['unit']]
-                    cfg = {'procs': u['procs'], 'steps': u['steps']}
-                    if u.get('override'):
-                        cfg['_schema'] = copy.deepcopy(u['override'])
-                    comp = SC(cfg).generate(path=tuple(h['path']))
+                    # one composer object per unit, generating several composites (as users do)
+                    if h['unit'] not in composers:
+                        u = case['units'][h['unit']]
+                        cfg = {'procs': u['procs'], 'steps': u['steps']}
+                        if u.get('override'):
+                            cfg['_schema'] = copy.deepcopy(u['override'])
+                        composers[h['unit']] = SC(cfg)
+                    comp = composers[h['unit']].generate(path=tuple(h['path']))
                     real[h['out']] = comp
+                elif h['op'] == 'override':
+                    ov = {h['target'][-1]: {'acc': {h['var']: {'_default': h['default']}}}}
+                    for seg in reversed(h['target'][:-1]):
+                        ov = {seg: ov}
+                    real[h['into']].merge(schema_override=ov)
                 elif h['op'] == 'process_generate':
                     from dst.parties import KProc
                     sp = case['units'][h['unit']]['procs'][h['proc']]
@@ -275,15 +295,39 @@ def check_history(case, snaps, exc):
             into = dict(into)
             into['state'] = union(into['state'], assoc_in(h['path'], h['state']))
             model[h['into']] = into
+        elif h['op'] == 'override':
+            # exactly the named process object changes (wherever it appears)
+            node = snap[h['into']]['processes']
+            for seg in h['target']:
+                node = node.get(seg) if isinstance(node, dict) else None
+            if not isinstance(node, str) or ('"%s": {"_default": %d}' % (h['var'], h['default'])) not in node:
+                return [V('C16', 'C16.override', 'not-applied',
+                          'after operation %d (%s) the named process reads %r' % (i, _desc(h), node))]
+            pid = node.split('|')[0]
+            model = {nm: _replace_marker(t, pid, node) for nm, t in model.items()}
         for nm, exp in model.items():
             got = snap[nm]
             if not same_tree(got, exp):
                 changed = 'merged-in composite' if (h['op'].startswith('merge') and nm != h.get('into')) else 'target'
+                if h['op'] == 'override':
+                    return [V('C16', 'C16.override', 'leaked',
+                              'after operation %d (%s) another process changed too: composite %s is %r, expected %r' % (
+                                  i, _desc(h), nm, _diff(got, exp)[0], _diff(got, exp)[1]))]
                 return [V('C16', 'C16.composite-changed' if changed != 'target' else 'C16.merge-result',
                           changed.replace(' ', '-'),
                           'after operation %d (%s) composite %s is %r, expected %r' % (
                               i, _desc(h), nm, _diff(got, exp)[0], _diff(got, exp)[1]))]
     return []
+
+
+def _replace_marker(t, pid, new):
+    if isinstance(t, dict):
+        return {k: _replace_marker(v, pid, new) for k, v in t.items()}
+    if isinstance(t, list):
+        return [_replace_marker(v, pid, new) for v in t]
+    if isinstance(t, str) and t.split('|')[0] == pid:
+        return new
+    return t
 
 
 def _desc(h):
@@ -313,7 +357,8 @@ def strip_ids(x):
     if isinstance(x, list):
         return [strip_ids(v) for v in x]
     if isinstance(x, str) and x.startswith('<P:'):
-        return x.rsplit(':', 1)[0]
+        head, _, ov = x.partition('|')
+        return head.rsplit(':', 1)[0] + '|' + ov
     return x
 
 
@@ -539,6 +584,14 @@ def validate(case):
     for h in case['history']:
         if h['op'] in ('generate', 'process_generate'):
             names.add(h['out'])
+        elif h['op'] == 'override':
+            if h['into'] not in names:
+                raise HarnessError('override on a composite that does not exist yet')
+            g = [x for x in case['history'] if x.get('out') == h['into']]
+            if not g or g[0]['op'] != 'generate' or list(g[0]['path']) != list(h['target'][:-1]):
+                raise HarnessError('override target does not match the generated composite')
+            if h['target'][-1] not in [p['name'] for p in case['units'][g[0]['unit']]['procs']]:
+                raise HarnessError('override names no process')
         else:
             if h['into'] not in names or (h['op'] == 'merge' and h['what'] not in names):
                 raise HarnessError('history refers to a composite that does not exist yet')
